@@ -16,6 +16,12 @@ CHECKS = {
     text="For every repository schema/WSDL that reads and hand-written sets that hit every emitter, the number N of write calls is counted and a fault is injected at every call index (stride-sampled only for documents above 20000 calls in the quick tier; thorough enumerates all). write_xml must return an I/O error, never Ok, never panic; Interrupted must be retried transparently; short-writing sinks must receive byte-identical output.",
     note="Trusted: std::io::Write::write_all semantics; the corpus is what the repository ships plus the mini sets (a writer reached only by other inputs is not exercised).",
     design="DESIGN.md section 4 C15"),
+ "C19": dict(
+    category="exploration",
+    technique="property-based testing with a bare-twin oracle: proptest values of hand-written yaserde probe types, bare vs MultiRef-wrapped, compared on bytes, Debug, restriction verdicts and Arc sharing",
+    text="Thousands of generated values of six probe shapes (text, attributes, nested Option/Vec members, restricted simple type, flattened attribute group, self-referential node) are serialized, deserialized (including damaged documents) and restriction-checked once bare and once wrapped in MultiRef (root and field positions); every observable must be equal, and clones must share the Arc. Held = equal on everything generated.",
+    note="Trusted: yaserde derive on the bare twin (its quirks cancel out). Recursive shapes are only deserialized when childless because yaserde 0.12 itself hangs on nested same-type elements (shown with a hand-written Box wrapper).",
+    design="DESIGN.md section 4 C19"),
 }
 
 NOT_YET = {
